@@ -5,7 +5,7 @@ use log::info;
 
 use super::{
     graph::GraphInline,
-    node::{Node, NodeIter, NodePointer, Reference, ReferenceType},
+    node::{Node, NodeIter, NodePointer, Reference, ReferenceType, Table},
     Key, NodeId,
 };
 
@@ -293,6 +293,31 @@ impl Tree {
                     },
                     text: reference.text.clone(),
                     reference_type: reference.reference_type,
+                }),
+                Node::Table(table) => Node::Table(Table {
+                    header: table
+                        .header
+                        .iter()
+                        .map(|cell| {
+                            cell.iter()
+                                .map(|inline| inline.change_key(target_key, updated_key))
+                                .collect_vec()
+                        })
+                        .collect_vec(),
+                    alignment: table.alignment.clone(),
+                    rows: table
+                        .rows
+                        .iter()
+                        .map(|row| {
+                            row.iter()
+                                .map(|cell| {
+                                    cell.iter()
+                                        .map(|inline| inline.change_key(target_key, updated_key))
+                                        .collect_vec()
+                                })
+                                .collect_vec()
+                        })
+                        .collect_vec(),
                 }),
                 _ => self.node.clone(),
             },
